@@ -113,7 +113,11 @@ func scriptGate(args []string) int {
 			fmt.Fprintln(os.Stderr, err)
 			return 2
 		}
-		oconn, _ := srv.Dial()
+		oconn, err := srv.Dial()
+		if err != nil {
+			fmt.Fprintln(os.Stderr, err)
+			return 2
+		}
 		oconn.Timeout = 20 * time.Second
 		sconn.Do("FLUSHDB")
 		sconn.Do("SET", "sk", "seed", "POINT", "1", "1")
